@@ -75,6 +75,33 @@ func (o *oracle) onTemp(cur, at string, f func(tmp string)) error {
 
 func (o *oracle) chance(num, den int, all bool) bool { return all || o.r.Chance(num, den) }
 
+// dropsColumnBeforeKey: does some table have, in the parent, a column declared before `pk` that the
+// commit no longer has?
+func dropsColumnBeforeKey(parent, commit []*table) bool {
+	for _, pt := range parent {
+		ct := findTable(commit, pt.Name)
+		if ct == nil {
+			continue
+		}
+		for _, l := range strings.Split(pt.Create, "\n")[1:] {
+			m := colLineRe.FindStringSubmatch(l)
+			if m == nil || m[1] == "pk" {
+				break
+			}
+			found := false
+			for _, c := range ct.Cols {
+				if c.Name == m[1] {
+					found = true
+				}
+			}
+			if !found {
+				return true
+			}
+		}
+	}
+	return false
+}
+
 // pickCommit picks a known commit id with exactly one parent (not the root).
 func (o *oracle) pickCommit(st *mstate, newest bool) (int, bool) {
 	var c []int
@@ -126,7 +153,21 @@ func (o *oracle) after(line, res string, pre, st *mstate, kc kase, all bool) boo
 					o.rep.Violate("C31/cherry-pick-onto-own-parent/error", fmt.Sprintf("cherry-pick of commit %d onto its own parent failed: %v", c, r.Err), kc)
 					return
 				}
-				got, _ := im.readRoot("HEAD")
+				got, gerr := im.readRoot("HEAD")
+				if dropsColumnBeforeKey(par, want) {
+					ok := gerr == nil
+					if ok {
+						ok, _ = rootEq(got, want, true)
+					}
+					if !ok {
+						o.rep.Known("C31/cherry-pick/drop-column-before-key", fmt.Sprintf("cherry-picking commit %d, which drops the column declared before the primary key, onto its own parent corrupts the table (key and values swapped, PRIMARY KEY moved): %v", c, gerr), kc)
+					}
+					return
+				}
+				if gerr != nil {
+					o.rep.Violate("C31/cherry-pick-onto-own-parent/unreadable", fmt.Sprintf("after cherry-picking commit %d onto its own parent HEAD cannot be read: %v", c, gerr), kc)
+					return
+				}
 				o.rep.Hit("oracle/C31/own-parent")
 				if ok, why := rootEq(got, want, true); !ok {
 					if ok2, _ := rootEq(normCols(got), normCols(want), false); ok2 {
@@ -1470,6 +1511,9 @@ func (rn *runner) queries(im *impl, st *mstate, kc kase, all bool) bool {
 func witnesses(rn *runner) {
 	var ops []string
 	switch rn.prop {
+	case "C31":
+		// cherry-picking a commit that drops the column declared before the key corrupts the table
+		ops = []string{"create v pk@1 c1:int c2:int", "ins v 6 i2 i-4", "commitA " + hexS("w1"), "dropcol v c1", "upd v 6 c2 i7", "ins v 0 N", "commitA " + hexS("w2")}
 	case "C34":
 		ops = []string{"create t c1:int", "ins t 1 i1", "create u c1:int", "commitA " + hexS("w1"), "branch b1 H",
 			"droptable u", "checkoutmove b1",
